@@ -115,8 +115,8 @@ func (s *vfC19HS) NewClient(host string) vfc19.Client {
 
 func (c *vfC19Client) Coarse() bool { return false }
 
-func (c *vfC19Client) Start(initiate bool) (string, error) {
-	if !initiate {
+func (c *vfC19Client) Start(mode string) (string, error) {
+	if mode != "ci" {
 		return "", nil
 	}
 	c.c.SetInitiateChallenge()
@@ -130,9 +130,10 @@ func (c *vfC19Client) Start(initiate bool) (string, error) {
 
 func (c *vfC19Client) Deliver(kind, val string) vfc19.ClientObs {
 	h := http.Header{}
-	if kind == "www" {
+	switch kind {
+	case "www":
 		h.Set("WWW-Authenticate", val)
-	} else {
+	case "info":
 		h.Set("Authentication-Info", val)
 	}
 	_ = c.c.ParseHeader(h) // auth/client.go ignores this error too; Run decides
@@ -178,7 +179,9 @@ func TestVerifC19Replay(t *testing.T) {
 	if err := vfc19.Replay(mk, res, vfc19.Options{Profile: os.Getenv("VERIF_C19_KEYS"), MaxWalks: vfh.EnvInt("VERIF_C19_MAXWALKS", 0)}); err != nil {
 		t.Fatal(err)
 	}
-	if err := vfc19.SecretMatrix(mk, res, os.Getenv("VERIF_C19_KEYS")); err != nil {
-		t.Fatal(err)
+	for _, m := range []func(func(*vfc19.World) vfc19.System, *vfh.Result, string) error{vfc19.SecretMatrix, vfc19.TimeMatrix, vfc19.ServerHostMatrix} {
+		if err := m(mk, res, os.Getenv("VERIF_C19_KEYS")); err != nil {
+			t.Fatal(err)
+		}
 	}
 }
